@@ -182,6 +182,10 @@ func (k Keeper) AddDeposit(ctx sdk.Context, receiverAddr, senderAddr sdk.AccAddr
 		}
 
 		// stream expired or new. Calculate from now
+		// the stream is (now) empty: it is funded again from this moment, so the next claim must not
+		// count the time it spent drained
+		stream.LastOutflowTime = nowTime
+
 		depositZeroTime = types.AddSeconds(nowTime, durationExtension)
 	} else {
 		// stream not expired. Add to current deposit zero time
